@@ -5,5 +5,5 @@ CONSTANTS
   Universe = "full"
 VIEW View
 INVARIANTS InvOneActive
-PROPERTIES PropIssue PropSerial PropRootSetAtomic EmitProp
+PROPERTIES PropIssue PropSerial PropRootSetAtomic PropReconf EmitProp
 CHECK_DEADLOCK FALSE
